@@ -18,7 +18,8 @@ EXPLANATION = (
     "resolved by name, never from source position (constant aggregates of the wrong shape pass the in-process verifier "
     "and are only rejected by llvm-as). Validity of every emitted instruction is decided by LLVM at run time: not decided."
     " ROUNDS 5-6: R9 a builtin that expands directly to a literal gives it the type the typer announced (line!: usize; file!: announced as slice, expanded to an array -- known finding)."
-    " ROUND 7: R2 linkage and calling convention are tables over the sixteen flag sets, folded from the arguments of LLVMSetLinkage / LLVMSetFunctionCallConv (rules/flagfn.py), whatever the form of the code that chooses them.")
+    " ROUND 7: R2 linkage and calling convention are tables over the sixteen flag sets, folded from the arguments of LLVMSetLinkage / LLVMSetFunctionCallConv (rules/flagfn.py), whatever the form of the code that chooses them."
+    " ROUND 8: R10-LINK-RESULT-CHECKED 'default diagnostic handler' (shared with C02): while the status of LLVMLinkModules2 is discarded (known finding) the default handler, which ends the process on a link error, must stay in place.")
 
 GEN = "alpha::generator::Generator"
 
